@@ -165,6 +165,7 @@ def _worker(args):
     try:
         mod = importlib.import_module(modname)
         ob = mod.obligations(tier)[idx]
+        core.DEADLINE[0] = t0 + 0.9 * ob.budget_s   # explorations wind up (keeping what they found) before the parent gives up
         import random
         random.seed(seed * 1000003 + idx)
         r = ob.fn(**ob.params)
